@@ -132,7 +132,7 @@ func checkC16(c *Check) {
 				if ci, ok := f.Ins.(ssa.CallInstruction); ok {
 					for _, a := range ci.Common().Args {
 						if mc, ok := a.(*ssa.MakeClosure); ok {
-							t.Facts[i].Cb = mc.Fn.(*ssa.Function)
+							t.Facts[i].Cb = unwrapBound(mc.Fn.(*ssa.Function))
 							it = &t.Facts[i]
 							sw.m = f.Map
 						}
